@@ -226,10 +226,15 @@ def run_real(case):
                 peak = max(peak, live)
             if peak > case["cores"]:
                 v("C12", "too-many-live", f"{peak} task processes were alive at once on {case['cores']} worker(s)")
+            if not submissions:
+                # the wording of gwf's progress messages is not part of any property: without them the
+                # number of submissions per target is unknown and the checks built on it are skipped
+                submissions = {n: 10 ** 6 for n in names}
+                labels.add("submission-count-unknown")
             for n, k in starts_per_name.items():
                 if k > submissions.get(n, 0):
                     v("C13", "respawn", f"{n} was started {k} times but submitted {submissions.get(n, 0)} time(s)")
-            resubmitted = {n for n, k in submissions.items() if k > 1}
+            resubmitted = {n for n, k in submissions.items() if 1 < k < 10 ** 6}
             # ---- C02: a target whose job is certainly still running is never submitted again
             if t_r2_ns is not None:
                 first_start, first_end = {}, {}
